@@ -23,11 +23,11 @@ Proof.
 Qed.
 
 (* ------------------------------------------------------------------ arity depends on the kinds of the parameters *)
-Inductive pkind := KInt | KIntOrName | KStr | KInts | KStrs | KField | KNone.
+Inductive pkind := KInt | KIntOrName | KStr | KInts | KStrs | KField | KNone | KSInt.
 Definition kind_of (p : param) : pkind :=
   match p with
   | PInt _ => KInt | PIntOrName _ => KIntOrName | PStr _ => KStr | PInts _ => KInts | PStrs _ => KStrs
-  | PField _ => KField | PNoneP => KNone
+  | PField _ => KField | PNoneP => KNone | PSInt _ => KSInt
   end.
 
 Definition aexpr_ok (e : aexpr) (ks : list pkind) : bool :=
@@ -94,6 +94,19 @@ Proof.
   destruct sh; cbn [parse_shape shape_kinds]; unfold bind; intros H; res_inv; simpl; auto.
 Qed.
 
+(* the kinds of a rule (class, shape): the SInt immediate of a signed class (frame_dig / frame_bury) is a PSInt *)
+Definition rule_kinds (cls : string) (sh : shape) : list (list pkind) :=
+  match sh with
+  | SInt => if signed_imm_class cls then [[KSInt]] else shape_kinds sh
+  | _ => shape_kinds sh
+  end.
+Lemma parse_imm_kinds cls sh x ps : parse_imm cls sh x = Ok ps -> In (map kind_of ps) (rule_kinds cls sh).
+Proof.
+  destruct sh; cbn [parse_imm rule_kinds]; try apply parse_shape_kinds.
+  destruct (signed_imm_class cls); [|apply parse_shape_kinds].
+  unfold bind. intros H. destruct (parse_sint x) as [z|e]; [|discriminate]. inversion H; subst. simpl. auto.
+Qed.
+
 Lemma fix_params_kinds c ps : map kind_of (fix_params c ps) = map kind_of ps.
 Proof.
   unfold fix_params. destruct (label_strip c); [|reflexivity].
@@ -108,7 +121,7 @@ Qed.
 
 (* the table check: every parser rule names a class whose arities are defined on the kinds its shape produces *)
 Definition rule_ok (r : string * (string * shape)) : bool :=
-  forallb (class_ok (fst (snd r))) (shape_kinds (snd (snd r))).
+  forallb (class_ok (fst (snd r))) (rule_kinds (fst (snd r)) (snd (snd r))).
 
 Lemma parser_rules_ok : forallb rule_ok parser_rules = true.
 Proof. vm_compute. reflexivity. Qed.
@@ -135,11 +148,11 @@ Proof.
     intros H. inversion H; subst. vm_compute. reflexivity. }
   cbv zeta.
   destruct (first_rule (join " " (f0 :: rest)) parser_rules) as [[[key cls] sh]|] eqn:Er.
-  - destruct (parse_shape sh _) as [ps|e] eqn:Es; [|discriminate].
+  - destruct (parse_imm cls sh _) as [ps|e] eqn:Es; [|discriminate].
     intros H. inversion H; subst. apply class_ok_sound. rewrite fix_params_kinds.
     apply first_rule_In in Er. pose proof parser_rules_ok as Hr. rewrite forallb_forall in Hr.
     specialize (Hr _ Er). unfold rule_ok in Hr. simpl in Hr. rewrite forallb_forall in Hr.
-    apply Hr. eapply parse_shape_kinds; eauto.
+    apply Hr. eapply parse_imm_kinds; eauto.
   - intros H. inversion H; subst. vm_compute. reflexivity.
 Qed.
 
